@@ -1,5 +1,5 @@
 """Human-written manifest texts per property."""
-HOOK_COMMITS = ["116d336"]
+HOOK_COMMITS = ["116d336", "8bafbd8"]
 
 NOT_BUILT = "not claimed yet: model/theorems/correspondence for this property are not built in this round (planned in DESIGN.md section 7); the technique applies"
 
@@ -71,5 +71,23 @@ META = {
         "design_ref": "DESIGN.md 7 C02",
         "note": "Trusted: as C01. Mutations in the streamed histories are creations; failed commits and dropped sessions are not streamed.",
         "technique": "Lean 4 proof (rollback lemma over the version table; RDF buffer theorems) + differential correspondence",
+    },
+    "C05": {
+        "text": "Machine-checked Lean 4 theorem over ALL sequences of logged API calls (create/delete node and edge, set property, add/remove label) interleaved with explicit checkpoints and close->reopen cycles, of any length: an invariant (replaying committed-then-pending log records reproduces the live store) gives 'reopen(close(db)) is exactly the same store', including the identifier counters. The unlogged calls are outside the fragment by necessity: witness theorem + two known findings (remove_*_property, query mutations). Tied to GrafeoDB by generated sessions on real temporary directories: mutate, checkpoint, dump, close, reopen, dump.",
+        "design_ref": "DESIGN.md 7 C05",
+        "note": "Trusted: Lean kernel + 3 standard axioms; harness; the record-level log abstraction (byte level is C06). A defect found by this check (checkpoint marker without commit marker discarded the session's earlier records) was repaired.",
+        "technique": "Lean 4 proof (inductive invariant relating log replay to the live store) + differential correspondence on real directories",
+    },
+    "C07": {
+        "text": "Copies (export->import, to_memory, save->open) are modelled as 'enumerate at the store epoch and re-create with ids'; the model reproduces the implementation's copies exactly on generated graphs (full dumps compared, export determinism and source-unchanged asserted). The full statement is refuted for graphs touched at a manager epoch >= 1 by a machine-checked witness (the copy is empty while the source has the node) - the same root cause as C01's store-epoch finding; the save->open path inherits C05's reopen theorem.",
+        "design_ref": "DESIGN.md 7 C07",
+        "note": "Trusted: as C05. No general theorem yet that copyStore preserves the dump of every epoch-0 store; invalid-bytes handling of import_snapshot is not streamed yet.",
+        "technique": "Lean 4 witness + reuse of the C05 theorem; differential correspondence of copies against model and plain-graph specification",
+    },
+    "C19": {
+        "text": "Translation validation with machine-checked result checkers: Lean 4 theorems prove, for EVERY finite directed multigraph, source and candidate result, that a result accepted by the checker is correct - reach orders (hence BFS/DFS visit sets), shortest-path distance maps for any integer weights (accepted maps are unique, so Dijkstra = Bellman-Ford), negative-cycle certificates, topological orders (sound and complete; cyclic graphs admit none), weak and strong component partitions (same class iff connected / mutually reachable), spanning forests (connectivity and edge count). On every generated graph the implementation's result must equal a result that the proved checker accepts. The algorithms' code itself is not modelled (per-sample decision, not a proof about the algorithm on all graphs).",
+        "design_ref": "DESIGN.md 7 C19",
+        "note": "Trusted: Lean kernel + 3 standard axioms; the harness; canonicalisation of non-unique outputs (visit order -> set, predecessor choice -> distances, topological order -> valid/none verdict checked in Rust). Known findings: kruskal with parallel edges, prim ignoring incoming edges, prim on disconnected graphs.",
+        "technique": "Lean 4 proofs of checker soundness (certificates) + per-sample validation of the real algorithms' outputs",
     },
 }
